@@ -332,7 +332,7 @@ def main(tier):
     if tier != "quick" and not broken:
         # independent kernel re-check of the compiled property modules
         import subprocess
-        p = subprocess.run(["lake", "env", "leanchecker", "Amoco.Props.C06", "Amoco.Proofs.Rv", "Amoco.Model.SemDsl",
+        p = subprocess.run(["lake", "env", "leanchecker", "Amoco.Props.C06", "Amoco.Props.C06X86", "Amoco.Proofs.Rv", "Amoco.Model.SemDsl",
                             "Amoco.Model.RiscvRef", "Amoco.Model.Flags", "Generated.RvSem"], cwd=LEAN, stdout=subprocess.PIPE,
                            stderr=subprocess.STDOUT, text=True, timeout=3000)
         ck.oblige("leanchecker (kernel replay of Props.C06 and its models)", p.returncode == 0, p.stdout[-1000:])
@@ -343,6 +343,9 @@ def main(tier):
     import rv_x86
     rv_x86.run(ck, drv, tier, corr_broken, machinery)
     drv.close()
+    # x86/x64 ALU instruction bodies: asm.py -> DSL (Generated/X86Sem.lean) -> theorems of Props/C06X86.lean, tied by correspondence
+    import x86sem_check
+    x86sem_check.run(ck, tier, corr_broken)
 
     if machinery:
         raise InternalError("oracle/model machinery disagrees with itself: %r" % (machinery[0],))
@@ -363,8 +366,9 @@ def main(tier):
                        "(checked here only through the end-to-end comparison with the real instruction(mapper))",
                        "ECALL/EBREAK: registers and memory compared, next pc left to the execution environment",
                        "FENCE words with non-zero reserved fields (fm, rd, rs1) that amoco does not decode are skipped"]
-    ck.assumptions += ["x86: only the helper formulas are modelled and proved; the i_XXX bodies of x64/asm.py and x86/asm.py are compared "
-                       "with native execution on this host CPU (differential, sampled) — the x86 half of C06 is partial",
+    ck.assumptions += ["x86: the helper formulas and the bodies of ADD SUB CMP AND OR XOR TEST INC DEC NEG NOT ADC SBB (register/immediate forms, both modes) are "
+                       "modelled and proved (Props/C06X86.lean); every other i_XXX body of x64/asm.py and x86/asm.py, memory operands and immediate "
+                       "extension are compared with native execution on this host CPU (differential, sampled) — the x86 half of C06 is partial",
                        "x86: flags the SDM leaves undefined for the instruction/operand values are not compared; faulting encodings are skipped",
                        "x86 32-bit mode: only encodings whose bytes and meaning coincide in both modes (no REX, no 0x67, no stack width dependence)"]
     ck.trusted += ["the host CPU as the x86 reference (harness/native/x86exec.c loads/stores all 16 registers and the status flags around the bytes)",
@@ -380,8 +384,8 @@ def main(tier):
                      "encodings of ~60 GP integer mnemonics built from templates (all operand sizes, REX.WRXB, 66/67 prefixes, register and "
                      "memory forms incl. SIB / disp8 / disp32 / rip-relative / absolute) on boundary+random registers, flags and memory",
                      explanation="RISC-V: proof (rv_expected_correct for all states/words; generated table = expected by decide) tied by "
-                     "translator + correspondence.  x86: proofs only for the shared flag/extension/condition helpers; instruction bodies "
-                     "are judged differentially against the CPU (partial).")
+                     "translator + correspondence.  x86: proofs for the shared flag/extension/condition helpers and for the 13 ALU bodies translated "
+                     "from asm.py on every run (x86_generated_correct, all widths); the other instruction bodies are judged differentially against the CPU (partial).")
 
 
 def replay(path):
